@@ -150,6 +150,12 @@ where
     let len = slot_of(slots, 0).try_get_len();
     set_track(false);
     tlog!("reenter more {} len {:?}", more, len);
+    if rt::REENTER_SKIP.load(std::sync::atomic::Ordering::Relaxed) {
+        set_track(true);
+        slot_of(slots, 0).skip_to_end();
+        set_track(false);
+        tlog!("reenter skipped");
+    }
     set_track(prev);
 }
 
@@ -700,6 +706,7 @@ where
         rt::register_loc(a, name);
     }
 
+    rt::REENTER_SKIP.store(case.reenter_skip, std::sync::atomic::Ordering::Relaxed);
     rt::set_reenter(case.reenter, &slots as *const Vec<OnceLock<I>> as usize, reenter_tramp::<I>);
     let (bufs, outcome) = {
         let slots = &slots;
